@@ -108,6 +108,8 @@ class Run:
                 for v in vs:
                     for cl in v["bad"]:
                         if self.relevant(cl) or cl.startswith("C19.abnormal_end"):
+                            if cl == "C19.abnormal_end_sanitizer":
+                                cl = "C19.sanitizer_" + self.san_summary(res, lines[v["line"] - 1])
                             bad_here.append((cl, v))
                     arb = [cl for cl in v["arb"] if self.relevant(cl)]
                     if arb:
@@ -140,6 +142,23 @@ class Run:
                     tl = lines[idx[0]:idx[-1] + 1] if idx else []
                     cands.append({"scenario": scen, "clause": cl, "fn": v.get("fn") or v.get("e"), "ty": res["ty"], "trace_lines": tl})
         return cands
+
+    def san_summary(self, res, done_line):
+        """kind and function of the sanitizer report of the child that ended this scenario (log_path = <trace>.san.<pid>)"""
+        import re as _re, glob as _glob
+        try:
+            pid = json.loads(done_line).get("pid")
+            for f in _glob.glob(res["trace"] + ".san.%s*" % pid):
+                txt = open(f, errors="replace").read()
+                m = _re.search(r"SUMMARY: \w+Sanitizer: (\S+) (\S+?)(?::\d+)*(?: in (\w+))?", txt)
+                if m:
+                    return "%s_in_%s" % (m.group(1), m.group(3) or os.path.basename(m.group(2)))
+                m = _re.search(r"([\w./-]+):\d+:\d+: runtime error: ([\w -]+)", txt)
+                if m:
+                    return "ub_%s_in_%s" % (m.group(2).strip().replace(" ", "-")[:30], os.path.basename(m.group(1)))
+        except Exception:
+            pass
+        return "unclassified"
 
     def report(self, c):
         fam = vlib.family_of(c["scenario"]["id"])
